@@ -195,7 +195,14 @@ pub fn child_check(h: &History, obs: &mut Obs) -> CaseResult {
         // a twin logger reports the same maximum
         let twin = log4rs::Logger::new(step_config(step, &new_sink(), "").unwrap());
         ensure!(twin.max_log_level() == want_max, "C02:reported-max-level", "step {}: Logger::max_log_level() is {:?}, expected {:?}", si, twin.max_log_level(), want_max);
-        for t in &step.targets {
+        // (targets are handed over in one reused buffer, equal lengths adjacent: only the characters may matter)
+        let mut probe_order: Vec<&String> = step.targets.iter().collect();
+        probe_order.sort_by_key(|t| t.len());
+        let mut buf = String::with_capacity(8192);
+        for t in probe_order {
+            buf.clear();
+            buf.push_str(t);
+            let t = &buf;
             if cfg.effective(t) != cfg.effective_textual(t) {
                 continue;
             }
